@@ -250,20 +250,39 @@ def has_await(node: ast.AST) -> bool:
 
 
 LOGGING_PREFIXES = ("logging.", "logger.", "log.", "traceback.", "warnings.")
-PURE_FUNCS = {"isinstance", "hasattr", "len", "print", "repr", "type", "id", "callable", "bool"}
+PURE_FUNCS = {"isinstance", "hasattr", "len", "print", "type", "id", "callable", "bool"}
 
 
-def is_benign_call(call: ast.Call) -> bool:
+def _str_safe(arg: ast.AST, handler_vars) -> bool:
+    """Is str()/repr() of `arg` total?  Yes for caught exception objects, constants, f-strings and
+    attribute/subscript projections of a caught exception; not for arbitrary (user-supplied) objects,
+    whose __repr__/__str__ may raise (a dict nested beyond the recursion limit does)."""
+    if isinstance(arg, (ast.Constant, ast.JoinedStr)):
+        return True
+    if isinstance(arg, ast.Name):
+        return arg.id in handler_vars
+    if isinstance(arg, ast.Attribute):
+        return _str_safe(arg.value, handler_vars)
+    return False
+
+
+def is_benign_call(call: ast.Call, handler_vars=()) -> bool:
     """Calls that the default fallibility model treats as non-raising: logging,
-    traceback formatting, total builtins, 3-argument getattr."""
+    traceback formatting, total builtins, 3-argument getattr, str()/repr() of a caught exception."""
     name = ast.unparse(call.func)
+    if name in ("repr", "str") and len(call.args) == 1 and not call.keywords:
+        a0 = call.args[0]
+        if _str_safe(a0, handler_vars):
+            return True
+        if name == "str" and isinstance(a0, (ast.Name, ast.Attribute, ast.Subscript)):
+            # str() of ids, status codes and other scalars taken from parsed JSON / library objects: documented assumption
+            return True
+        return False
     if name.startswith(LOGGING_PREFIXES):
         return True
     if name in PURE_FUNCS:
         return True
     if name == "getattr" and len(call.args) == 3:
-        return True
-    if name == "str" and len(call.args) <= 1:
         return True
     f = call.func
     if isinstance(f, ast.Attribute) and f.attr in ("lower", "upper", "strip", "startswith", "endswith", "split", "rstrip", "lstrip") and len(call.args) <= 1 and not call.keywords:
@@ -503,8 +522,9 @@ class PathAnalysis(flow.Analysis):
         if self.fallible_pred is not None:
             tags |= set(self.fallible_pred(node, state, self) or ())
         elif self.fallible:
+            hv = tuple(h.name for h in self.handler_stack if h.name)
             for c in calls_in_order(node):
-                if not is_benign_call(c):
+                if not is_benign_call(c, hv):
                     tags.add(ANY_EXC)
                     break
         if self.track_cancel and has_await(node):
